@@ -13,8 +13,8 @@ from props import base
 from props.c09 import evidence, chosen, has_tie, tie_explained
 from shexer import consts as C
 
-PROPS_MODULES = ["ShexerModel.Props.C08", "ShexerModel.Props.GenStrCorners", "ShexerModel.Props.GenStrLiteral", "ShexerModel.Props.GenStrNtTok", "ShexerModel.Props.GenStrTune2"]
-DEPS = ["S.remove_corners", "S.decide_literal_type"] + ["S." + x for x in ('nt_look_for_index_of_closing_quotes', 'nt_look_for_last_index_before_blank', 'nt_look_for_last_index_of_uri_token', 'nt_look_for_last_index_of_bnode_token', 'nt_look_for_last_index_of_unlabelled_number_token', 'nt_look_for_last_index_of_literal_token', 'nt_look_for_tokens', 'parse_literal', 'parse_unquoted_literal', 'tune_subj', 'tune_prop', 'tune_token')]
+PROPS_MODULES = ["ShexerModel.Props.C08", "ShexerModel.Props.GenStrCorners", "ShexerModel.Props.GenStrLiteral", "ShexerModel.Props.GenStrNtTok", "ShexerModel.Props.GenStrTune2", "ShexerModel.Props.GenNtReader", "ShexerModel.Props.GenTsvReader"]
+DEPS = ["S.remove_corners", "S.decide_literal_type"] + ["S." + x for x in ('nt_look_for_index_of_closing_quotes', 'nt_look_for_last_index_before_blank', 'nt_look_for_last_index_of_uri_token', 'nt_look_for_last_index_of_bnode_token', 'nt_look_for_last_index_of_unlabelled_number_token', 'nt_look_for_last_index_of_literal_token', 'nt_look_for_tokens', 'parse_literal', 'parse_unquoted_literal', 'tune_subj', 'tune_prop', 'tune_token', 'tsv_look_for_tokens')]
 replay = base.replay
 
 
@@ -387,7 +387,7 @@ def run(ctx):
             shutil.rmtree(tdir, ignore_errors=True)
     ir, d2 = base.correspondence(ctx, cases[:40])
     dis += d2
-    base.fragment_s_tie(ctx, dis, stats, ['remove_corners', 'decide_literal_type', 'nt_look_for_index_of_closing_quotes', 'nt_look_for_last_index_before_blank', 'nt_look_for_last_index_of_uri_token', 'nt_look_for_last_index_of_bnode_token', 'nt_look_for_last_index_of_unlabelled_number_token', 'nt_look_for_last_index_of_literal_token', 'nt_look_for_tokens', 'parse_literal', 'parse_unquoted_literal', 'tune_subj', 'tune_prop', 'tune_token'])
+    base.fragment_s_tie(ctx, dis, stats, ['remove_corners', 'decide_literal_type', 'nt_look_for_index_of_closing_quotes', 'nt_look_for_last_index_before_blank', 'nt_look_for_last_index_of_uri_token', 'nt_look_for_last_index_of_bnode_token', 'nt_look_for_last_index_of_unlabelled_number_token', 'nt_look_for_last_index_of_literal_token', 'nt_look_for_tokens', 'parse_literal', 'parse_unquoted_literal', 'tune_subj', 'tune_prop', 'tune_token', 'tsv_look_for_tokens'])
     return base.std_result(ctx, cases, viol, dis, base.known_lines(kf, hit), stats, stats["comparisons_without_tie"], [],
                            "schema-consistent and general graphs (30 %% with blank nodes; plain / typed / language-tagged literals) x %d delivery channels "
                            "(NT / TSV / TURTLE / TURTLE_ITER / RDF-XML / JSON-LD / N3 as file and raw string, rdflib Graph, file:// URL, lists of 2-4 files "
